@@ -63,7 +63,7 @@ def run_scenario(sc, order=None):
         out = ("run", r)
     except TypeError as e:
         s = str(e)
-        out = ("ambiguous",) if s.startswith("Ambiguous resolution") else ("nomethod",) if s.startswith("No method") else ("error", s[:100])
+        out = ("ambiguous",) if __import__("_errs").amb(s) else ("nomethod",) if __import__("_errs").nomethod(s) else ("error", s[:100])
     except Exception as e:
         out = ("error", f"{type(e).__name__}: {e}"[:100])
     res = None
@@ -73,7 +73,7 @@ def run_scenario(sc, order=None):
             res = ("run", h(*args))  # the selected method, identified by what it returns
         except TypeError as e:
             s = str(e)
-            res = ("ambiguous",) if s.startswith("Ambiguous resolution") else ("nomethod",) if s.startswith("No method") else ("error", s[:100])
+            res = ("ambiguous",) if __import__("_errs").amb(s) else ("nomethod",) if __import__("_errs").nomethod(s) else ("error", s[:100])
         except Exception as e:
             res = ("error", f"{type(e).__name__}: {e}"[:100])
     return out, res
